@@ -73,7 +73,7 @@ Proof.
     + destruct r; cbn -[precheck mix_precheck].
       13:{ destruct (mix_precheck _ _ _ _); [eexists; reflexivity|].
            destruct (nfrac <? _); eexists; reflexivity. }
-      all: destruct (precheck _ _ _); [eexists; reflexivity|];
+      all: destruct (precheck _ _ _ _); [eexists; reflexivity|];
            match goal with |- context [negb (flag ?x)] => destruct (negb (flag x)) end; eexists; reflexivity.
   - left. open_state s. cbn in *. subst. by_tid TClient. eexists; reflexivity.
   - (* in the send: the core loop takes it, or the client gives up once the source is not running *)
